@@ -108,8 +108,24 @@ pub fn c06(ctx: &Ctx) {
                 }
                 px = v;
             }
+            if variant == 2 {
+                // hostile companions between the subjects (not judged)
+                let hostile = [[f32::NAN; 3], [f32::INFINITY, 0.5, 0.5], [0.5, f32::NEG_INFINITY, 3e38], [f32::NAN, 0.0, 1.0], [-1e30, 1e30, 0.0]];
+                for i in (1..n.saturating_sub(1)).step_by(3) {
+                    px[i] = hostile[(i / 3) % hostile.len()];
+                }
+            }
             px[n - 1] = [1.0, 1.0, 1.0];
-            let (w, h) = if n % 3 == 0 { (n / 3, 3) } else { (n, 1) };
+            let mut shape = if n % 3 == 0 { (n / 3, 3) } else { (n, 1) };
+            if variant == 3 && n >= 128 {
+                // letterboxed: rows of 61 pixels, whole rows of black above and between the rows of subjects, none below
+                let (v, _, h) = letterbox(&px, 61, [0.0; 3]);
+                px = v;
+                shape = (61, h);
+            }
+            let n = px.len();
+            px[n - 1] = [1.0, 1.0, 1.0];
+            let (w, h) = shape;
             let out = match conv(px.clone(), w, h, p, dir) {
                 Ok(o) => o,
                 Err(e) => {
@@ -122,7 +138,11 @@ pub fn c06(ctx: &Ctx) {
                 continue;
             }
             let mut wfwd = Worst::new();
+            let in_dom = |p: [f32; 3]| p.iter().all(|v| *v >= -0.5 && *v <= 2.0);
             for i in 0..n {
+                if !in_dom(px[i]) {
+                    continue; // a hostile companion
+                }
                 let want = mat_vec(m, px64(px[i]));
                 for c in 0..3 {
                     let e = (out[i][c] as f64 - want[c]).abs() / want[c].abs().max(1.0);
@@ -152,6 +172,9 @@ pub fn c06(ctx: &Ctx) {
             match conv(out.clone(), w, h, p, 1 - dir) {
                 Ok(back) => {
                     for i in 0..n {
+                        if !in_dom(px[i]) {
+                            continue;
+                        }
                         for c in 0..3 {
                             wrt.upd((back[i][c] as f64 - px[i][c] as f64).abs(), (pi, dir, px[i], c, back[i][c], px[i][c] as f64));
                         }
@@ -356,6 +379,28 @@ fn gen_matrix(rng: &mut Rng, kind: u64) -> M3 {
                     *v = if rng.coin() { 1.0 } else { -1.0 } * rng.range(1.5, 2.0);
                 }
             }
+            if rng.coin() {
+                // badly conditioned but inside the property's domain: one entry is re-solved (the determinant is
+                // affine in each entry) so that |det| lands in [0.5, 0.7] while the other entries stay near +-2
+                let target = if rng.coin() { 1.0 } else { -1.0 } * rng.range(0.5, 0.7);
+                let start = rng.below(9) as usize;
+                for k in 0..9 {
+                    let (i, j) = ((start + k) % 9 / 3, (start + k) % 3);
+                    let old = m[i][j];
+                    let d0 = det3(&m);
+                    m[i][j] = old + 1.0;
+                    let cof = det3(&m) - d0;
+                    m[i][j] = old;
+                    if cof.abs() < 1e-3 {
+                        continue;
+                    }
+                    let new = old + (target - d0) / cof;
+                    if new.abs() <= 2.0 {
+                        m[i][j] = new;
+                        break;
+                    }
+                }
+            }
             m
         }
     }
@@ -527,6 +572,13 @@ pub fn c19(ctx: &Ctx) {
                 div = 0.5;
             }
             let mut v = v;
+            let mut u = u;
+            if i % 16 == 3 {
+                // lattice vectors: products that tie exactly in magnitude, with equal or opposite signs
+                let lat = [0.0f64, 0.5, -0.5, 1.0, -1.0, 2.0, -2.0, 1.0, -1.0];
+                v = [rng.pick(&lat), rng.pick(&lat), rng.pick(&lat)];
+                u = [rng.pick(&lat), rng.pick(&lat), rng.pick(&lat)];
+            }
             if i % 64 == 5 {
                 // element-wise division by very small (also subnormal) scalars; some components exactly zero
                 div = rng.pick(&[2.5e-39f64, 1e-38, -3e-40, 1e-30, 1e-310, 4e-320, 1e-300]);
